@@ -464,7 +464,8 @@ func eval(c *Case) error {
 	return nil
 }
 
-// shrink: greedy removal of objects while the oracle keeps failing with the same kind.
+// shrink: delta debugging over the two object lists (remove chunks of halving size while the oracle keeps
+// failing with the same kind), with a budget of implementation runs.
 func shrink(c Case) Case {
 	kind := func(c *Case) string {
 		if c.Sig == nil {
@@ -476,30 +477,70 @@ func shrink(c Case) Case {
 	if want == "" {
 		return c
 	}
+	budget := 400
+	if len(c.Local)+len(c.Remote) > 1000 {
+		budget = 16
+	}
 	best := c
-	for changed := true; changed; {
-		changed = false
-		for side := 0; side < 2; side++ {
-			l := best.Local
-			if side == 1 {
-				l = best.Remote
+	try := func(t Case) bool {
+		if budget <= 0 {
+			return false
+		}
+		budget--
+		if err := eval(&t); err == nil && kind(&t) == want {
+			best = t
+			return true
+		}
+		return false
+	}
+	for side := 0; side < 2; side++ {
+		get := func() []Item {
+			if side == 0 {
+				return best.Local
 			}
-			for i := range l {
+			return best.Remote
+		}
+		for chunk := (len(get()) + 1) / 2; chunk >= 1 && budget > 0; {
+			removed := false
+			for start := 0; start < len(get()) && budget > 0; {
+				l := get()
+				end := start + chunk
+				if end > len(l) {
+					end = len(l)
+				}
 				t := best
-				nl := append(append([]Item{}, l[:i]...), l[i+1:]...)
+				nl := append(append([]Item{}, l[:start]...), l[end:]...)
 				if side == 0 {
 					t.Local = nl
 				} else {
 					t.Remote = nl
 				}
-				if err := eval(&t); err == nil && kind(&t) == want {
-					best, changed = t, true
-					break
+				if try(t) {
+					removed = true
+				} else {
+					start += chunk
 				}
 			}
-			if changed {
-				break
+			if !removed || chunk == 1 {
+				if chunk == 1 && !removed {
+					break
+				}
+				if chunk == 1 {
+					continue
+				}
+				chunk = (chunk + 1) / 2
+				if chunk < 1 {
+					chunk = 1
+				}
 			}
+		}
+	}
+	// one more pass over the first side: removing remote objects may have made local ones removable
+	for i := 0; i < len(best.Local) && budget > 0; {
+		t := best
+		t.Local = append(append([]Item{}, best.Local[:i]...), best.Local[i+1:]...)
+		if !try(t) {
+			i++
 		}
 	}
 	best.Shrunk = true
